@@ -1,11 +1,210 @@
 /-
-  Protocol ops of one area (see /verif/FRAMEWORK.md).  Not part of any theorem.  Core Lean only.
+  Protocol ops of the memory model (C11; see /verif/FRAMEWORK.md).  Not part of any theorem.
+  Core Lean only.
+
+  World syntax (shared with harness/props_c11.go):
+    (B x<array0> x<array1> …)                    byte arrays, whole backing arrays
+    (T (F… F…) (F…) …)                           feature-table arrays, whole backing arrays
+    (S (ta to tl tc ba bo bl bc) …)              sequences: table slice header, byte slice header
+  Operations on sequence number `k`:
+    (insert i k) (embed i k) (delete i n) (erase i n) (slice a b) (rotate n) (reverse)
+    (complement) (transcribe) (concat (k…) (k…)) (tabinsert F) (filter lo hi)
+  Answer of `mem.prog`: `(B x… x…) (T (…) …) (R (Q x<bytes> F…) …)` — every array that existed
+  before (whole array), then the results.
 -/
 import Gts.Model.Sexp
+import Gts.Model.Mem
 namespace Gts
+open Gts.Mem Gts.Mem.Heap
+
+/-- the capacity policy used by the driver (never observable in a dump) -/
+def memGrow : Grow := fun _ _ => 0
+
+def decSlice4? : List Sexp → Option (Slice × List Sexp)
+  | a :: o :: l :: c :: rest => do pure (⟨← decNat? a, ← decNat? o, ← decNat? l, ← decNat? c⟩, rest)
+  | _ => none
+
+def decMSeq? : Sexp → Option MSeq
+  | .list xs => do
+    let (t, rest) ← decSlice4? xs
+    let (b, rest) ← decSlice4? rest
+    if rest.isEmpty then pure ⟨t, b⟩ else none
+  | _ => none
+
+def decWorld? : Sexp → Sexp → Sexp → Option (World Feature × List MSeq)
+  | .list (.atom "B" :: bs), .list (.atom "T" :: ts), .list (.atom "S" :: ss) => do
+    let B ← bs.mapM decBytes?
+    let T ← ts.mapM fun
+      | .list fs => fs.mapM decFeature?
+      | _ => none
+    let S ← ss.mapM decMSeq?
+    pure (⟨B, T⟩, S)
+  | _, _, _ => none
+
+def decMemOp? (seqs : List MSeq) : Sexp → Option Op
+  | .list [.atom "insert", i, k] => do pure (.insert (← decInt? i) (← seqs[← decNat? k]?))
+  | .list [.atom "embed", i, k] => do pure (.embed (← decInt? i) (← seqs[← decNat? k]?))
+  | .list [.atom "delete", i, n] => do pure (.delete (← decInt? i) (← decInt? n))
+  | .list [.atom "erase", i, n] => do pure (.erase (← decInt? i) (← decInt? n))
+  | .list [.atom "slice", a, b] => do pure (.slice (← decInt? a) (← decInt? b))
+  | .list [.atom "rotate", n] => do pure (.rotate (← decInt? n))
+  | .list [.atom "reverse"] => pure .reverse
+  | .list [.atom "complement"] => pure .complement
+  | .list [.atom "transcribe"] => pure .transcribe
+  | .list [.atom "concat", .list before, .list after] => do
+    let bs ← before.mapM fun k => do seqs[← decNat? k]?
+    let as ← after.mapM fun k => do seqs[← decNat? k]?
+    pure (.concat bs as)
+  | .list [.atom "tabinsert", f] => do pure (.tabInsert (← decFeature? f))
+  | .list [.atom "filter", lo, hi] => do pure (.filterOverlap (← decInt? lo) (← decInt? hi))
+  | _ => none
+
+def encWorldDump (w0 w : World Feature) : String :=
+  let bs := (List.range w0.B.length).map fun a => encBytes (w.B.get a)
+  let ts := (List.range w0.T.length).map fun a => encList ((w.T.get a).map encFeature)
+  "(B" ++ String.join (bs.map (" " ++ ·)) ++ ") (T" ++ String.join (ts.map (" " ++ ·)) ++ ")"
+
+/-- run a program on sequence `k` of the world and dump -/
+def memProg (w : World Feature) (seqs : List MSeq) (k : Nat) (ops : List Sexp) : Option String := do
+  let s ← seqs[k]?
+  let ops ← ops.mapM (decMemOp? seqs)
+  let r := runProg memGrow w s ops
+  let res := r.1.map fun m => encSeq (readSeq r.2 m)
+  pure (encWorldDump w r.2 ++ " (R" ++ String.join (res.map (" " ++ ·)) ++ ")")
+
+/-- a feature-less sequence over one buffer: `off len cap x<buffer>` -/
+def decBuf? : List Sexp → Option (Slice × List UInt8 × List Sexp)
+  | o :: l :: c :: b :: rest => do
+    pure (⟨0, ← decNat? o, ← decNat? l, ← decNat? c⟩, ← decBytes? b, rest)
+  | _ => none
+
+/-- byte-level single-buffer operations: `x<buffer after> x<result>` -/
+def memBytes1 (args : List Sexp) (f : World Feature → MSeq → List Sexp → Option (MSeq × World Feature)) :
+    Option String := do
+  let (sl, buf, rest) ← decBuf? args
+  let w : World Feature := ⟨[buf], []⟩
+  let r ← f w ⟨Slice.nil, sl⟩ rest
+  pure (encBytes (r.2.B.get 0) ++ " " ++ encBytes (r.2.readDat r.1))
+
+/-! ### locations in memory -/
+
+def locDepth : Nat := 64
+
+/-! ### props in memory: `(P ocap (rcap x… x…) …)`: outer capacity, rows with their capacity -/
+
+def decRow? : Sexp → Option (Nat × List String)
+  | .list (c :: vs) => do pure (← decNat? c, ← vs.mapM decStr?)
+  | _ => none
+
+/-- lay a `Props` out: every row in its own array with `rcap` cells, the outer array with `ocap` -/
+def buildProps (ocap : Nat) (rows : List (Nat × List String)) : Slice × PWorld :=
+  let R : Heap String := rows.map fun (c, vs) => vs ++ List.replicate (c - vs.length) "î"
+  let hdrs : List Slice := (List.range rows.length).zipWith (fun i (r : Nat × List String) => (⟨i, 0, r.2.length, max r.1 r.2.length⟩ : Slice)) rows
+  (⟨0, 0, rows.length, max ocap rows.length⟩, ⟨R, [hdrs ++ List.replicate (ocap - rows.length) Slice.nil]⟩)
+
+def encPropsVal (v : List (List String)) : String := encProps v
 
 def evalMem (op : String) (args : List Sexp) : Option String :=
   match op, args with
+  | "mem.prog", _share :: b :: t :: s :: k :: ops => do
+      let (w, seqs) ← decWorld? b t s
+      memProg w seqs (← decNat? k) ops
+  | "mem.gbprog", _share :: b :: t :: s :: k :: ops => do
+      -- the same worlds through seqio.GenBank values: every byte array is the residues of one
+      -- *Origin (window = whole array); the dump reads them back through `Bytes()`
+      let (w, seqs) ← decWorld? b t s
+      memProg w seqs (← decNat? k) ops
+  | "mem.insert", _ => do
+      let (hs, hbuf, rest) ← decBuf? args
+      match rest with
+      | idx :: rest => do
+        let (gs, gbuf, _) ← decBuf? rest
+        let w : World Feature := ⟨[hbuf, gbuf], []⟩
+        let r := insertSeq memGrow w ⟨Slice.nil, hs⟩ (← decInt? idx) ⟨Slice.nil, { gs with arr := 1 }⟩
+        pure (encBytes (r.2.B.get 0) ++ " " ++ encBytes (r.2.B.get 1) ++ " " ++ encBytes (r.2.readDat r.1))
+      | _ => none
+  | "mem.embed", _ => do
+      let (hs, hbuf, rest) ← decBuf? args
+      match rest with
+      | idx :: rest => do
+        let (gs, gbuf, _) ← decBuf? rest
+        let w : World Feature := ⟨[hbuf, gbuf], []⟩
+        let r := embedSeq memGrow w ⟨Slice.nil, hs⟩ (← decInt? idx) ⟨Slice.nil, { gs with arr := 1 }⟩
+        pure (encBytes (r.2.B.get 0) ++ " " ++ encBytes (r.2.B.get 1) ++ " " ++ encBytes (r.2.readDat r.1))
+      | _ => none
+  | "mem.insert1", _ => do
+      -- host and guest are two windows of ONE buffer: off len cap goff glen gcap x<buffer> idx
+      match args with
+      | [o, l, c, go, gl, gc, b, idx] => do
+        let w : World Feature := ⟨[← decBytes? b], []⟩
+        let hs : Slice := ⟨0, ← decNat? o, ← decNat? l, ← decNat? c⟩
+        let gs : Slice := ⟨0, ← decNat? go, ← decNat? gl, ← decNat? gc⟩
+        let r := insertSeq memGrow w ⟨Slice.nil, hs⟩ (← decInt? idx) ⟨Slice.nil, gs⟩
+        pure (encBytes (r.2.B.get 0) ++ " " ++ encBytes (r.2.readDat r.1))
+      | _ => none
+  | "mem.delete", _ => memBytes1 args fun w s rest =>
+      match rest with
+      | [i, n] => do pure (deleteSeq w s (← decInt? i) (← decInt? n))
+      | _ => none
+  | "mem.rotate", _ => memBytes1 args fun w s rest =>
+      match rest with
+      | [n] => do pure (rotateSeq memGrow w s (← decInt? n))
+      | _ => none
+  | "mem.slice", _ => memBytes1 args fun w s rest =>
+      match rest with
+      | [a, b] => do pure (sliceSeq memGrow w s (← decInt? a) (← decInt? b))
+      | _ => none
+  | "mem.reverse", _ => memBytes1 args fun w s _ => pure (reverseSeq w s)
+  | "mem.complement", _ => memBytes1 args fun w s _ => pure (complementSeq w s)
+  | "mem.transcribe", _ => memBytes1 args fun w s _ => pure (transcribeSeq w s)
+  | "mem.concat", _ => do
+      -- any number of `off len cap x<buffer>` groups, each in its own array
+      let rec go (args : List Sexp) (a : Nat) (fuel : Nat) : Option (List (Slice × List UInt8)) :=
+        match fuel, args with
+        | _, [] => some []
+        | 0, _ => none
+        | fuel + 1, _ => do
+          let (sl, buf, rest) ← decBuf? args
+          let more ← go rest (a + 1) fuel
+          pure (({ sl with arr := a }, buf) :: more)
+      let parts ← go args 0 args.length
+      let w : World Feature := ⟨parts.map (·.2), []⟩
+      let r := concatSeq memGrow w (parts.map fun p => ⟨Slice.nil, p.1⟩)
+      let dumps := (List.range w.B.length).map fun a => encBytes (r.2.B.get a)
+      pure (" ".intercalate dumps ++ " " ++ encBytes (r.2.readDat r.1))
+  | "mem.tabinsert", [o, l, c, .list fs, f] => do
+      let tab ← fs.mapM decFeature?
+      let w : World Feature := ⟨[], [tab]⟩
+      let r := tabInsertSeq w ⟨⟨0, ← decNat? o, ← decNat? l, ← decNat? c⟩, Slice.nil⟩ (← decFeature? f)
+      pure (encList ((r.2.T.get 0).map encFeature) ++ " " ++ encList ((r.2.readTab r.1).map encFeature))
+  | "mem.ascomplete", [l] => do
+      let l ← decLoc? l
+      let a := allocLoc l []
+      let r := asCompleteMem locDepth a.2 a.1
+      pure (encLoc (readLoc locDepth r.2 a.1) ++ " " ++ encLoc (readLoc locDepth r.2 r.1))
+  | "mem.origin", [t] => do
+      let text ← decBytes? t
+      let w : OWorld := ⟨[text], [⟨⟨0, 0, text.length, text.length⟩, false⟩]⟩
+      let r1 := originBytes originDecode w 0
+      let r2 := originBytes originDecode r1.2 0
+      let c := r2.2.O.getD 0 default
+      pure (encBytes (r2.2.B.get 0) ++ " " ++ encBytes (read r1.2.B r1.1) ++ " " ++ encBytes (read r2.2.B r2.1)
+        ++ " " ++ encBool c.parsed ++ " " ++ toString (obsLen r2.2 0))
+  | "mem.props", mode :: what :: .list (.atom "P" :: ocap :: rows) :: key :: vals => do
+      let rows ← rows.mapM decRow?
+      let (p, w) := buildProps (← decNat? ocap) rows
+      let key ← decStr? key
+      let vals ← vals.mapM decStr?
+      let (q, w) ← match mode with
+        | .atom "shared" => some (p, w)
+        | .atom "clone" => some (propsClone w p)
+        | _ => none
+      let r ← match what with
+        | .atom "set" => some (propsSet memGrow w q key vals)
+        | .atom "add" => some (propsAdd memGrow w q key vals)
+        | .atom "del" => some (propsDel memGrow w q key)
+        | _ => none
+      pure (encPropsVal (readProps r.2 p) ++ " " ++ encPropsVal (readProps r.2 r.1))
   | _, _ => none
 
 end Gts
